@@ -202,6 +202,8 @@ fn int_strategy() -> impl Strategy<Value = u64> {
         2 => any::<u64>(),
         2 => 0u64..70000,
         1 => (0usize..BOUNDARY_INTS.len(), -2i64..=2).prop_map(|(i, d)| BOUNDARY_INTS[i].wrapping_add(d as u64)),
+        // every power of two and its neighbours (all-ones patterns, sign bits, shift widths)
+        3 => (0u32..64, -1i64..=1).prop_map(|(k, d)| (1u64 << k).wrapping_add(d as u64)),
     ]
 }
 fn len_strategy() -> impl Strategy<Value = u32> {
@@ -238,6 +240,16 @@ pub fn boundary_msgs() -> Vec<Msg> {
             out.push(Msg::RequestBlock { index: x, nodes: y });
             out.push(Msg::RequestUpgrade { start: x, length: y });
             out.push(Msg::Node(WNode { index: x, length: y, fill: (x as u8) ^ (y as u8) }));
+        }
+    }
+    // every power of two and its neighbours as node index / length and as request fields
+    for k in 0..64u32 {
+        for d in [-1i64, 0, 1] {
+            let x = (1u64 << k).wrapping_add(d as u64);
+            out.push(Msg::Node(WNode { index: x, length: 1, fill: k as u8 }));
+            out.push(Msg::Node(WNode { index: 3, length: x, fill: k as u8 }));
+            out.push(Msg::RequestBlock { index: x, nodes: x });
+            out.push(Msg::DataHash { index: x, nodes: vec![WNode { index: x, length: x, fill: 1 }, WNode { index: 0, length: 0, fill: 2 }] });
         }
     }
     // composite types: boundary integer x list length 0..8 x byte-string lengths
